@@ -65,6 +65,8 @@ int sqlite3_exec(sqlite3*, const char* sql, int (*)(void*, int, char**, char**),
   if (err) *err = (char*)"e";
   if (sqlIs(sql, "BEGIN EXCLUSIVE;")) { if (m_trackOps) m_txnControlInOps++; m_begins++; if (m_failBegin) return SQLITE_BUSY; VF_ASSERT(!m_inTxn, "no nested transaction"); m_inTxn = true; return SQLITE_OK; }
   if (sqlIs(sql, "END;")) { if (m_trackOps) m_txnControlInOps++; m_ends++; VF_ASSERT(m_inTxn, "END only inside a transaction"); m_inTxn = false; return SQLITE_OK; }
+  if (sqlIs(sql, "END; BEGIN EXCLUSIVE;") || sqlIs(sql, "COMMIT; BEGIN EXCLUSIVE;") || sqlIs(sql, "COMMIT;")) {   // a commit (and reopening) of the running transaction
+    if (m_trackOps) m_txnControlInOps++; m_ends++; VF_ASSERT(m_inTxn, "END only inside a transaction"); m_inTxn = !sqlIs(sql, "COMMIT;"); return SQLITE_OK; }
   if (sql == m_insertInfoToken) { mutation(); m_info.exists = true; m_info.iteration = 0; m_info.version = 17; m_info.client_version = 0; return SQLITE_OK; }
   if (sql[0] == 'C' && sql[1] == 'R') { mutation(); m_ddl++; m_info.tables = true; return SQLITE_OK; }     // CREATE TABLE / INDEX
   VF_ASSERT(false, "model: unexpected SQL passed to sqlite3_exec (outside bound)"); VF_STOP(); return SQLITE_ERROR;
